@@ -513,6 +513,15 @@ def explore(cfg, max_runs=400, max_subset=None, max_bg=None, rng=None):
     return {"traces": out, "runs": runs, "complete": complete, "nondet": nondet}
 
 
+def _work_ix(args):
+    ix, rest = args
+    try:
+        return ix, _work(rest)
+    finally:
+        import common
+        common.arm_exit_if_threads_are_stuck()
+
+
 def _work(args):
     cfgs, opts, seed = args
     rng = random.Random(seed)
@@ -539,15 +548,32 @@ def run_configs(cfgs, opts, seed=0, procs=None, chunk=24):
     chunks = [(cfgs[i:i + chunk], opts, seed + i) for i in range(0, len(cfgs), chunk)]
     out = []
     ctx = mp.get_context("fork")
-    pool = ctx.Pool(procs, maxtasksperchild=8)
+    pool = ctx.Pool(procs, maxtasksperchild=1)        # one task per process: see common.arm_exit_if_threads_are_stuck
+    got = set()
+    wedged = False
     try:
-        for res in pool.imap_unordered(_work, chunks):
+        it = pool.imap_unordered(_work_ix, list(enumerate(chunks)))
+        while len(got) < len(chunks):
+            try:
+                ix, res = it.next(timeout=60)
+            except mp.TimeoutError:
+                # past the budget every remaining configuration is skipped at once: a worker that has still not answered
+                # five minutes later is stuck for good (seen with a change that left threads blocked in worker processes)
+                if opts.get("deadline") and time.time() > opts["deadline"] + 300:
+                    wedged = True
+                    break
+                continue
+            except StopIteration:
+                break
+            got.add(ix)
             out.extend(res)
-        pool.close()
-    except BaseException:
+    finally:
         pool.terminate()
-        raise
     pool.join()
+    if wedged:
+        for ix, (cs, _, _) in enumerate(chunks):
+            if ix not in got:
+                out.extend({"traces": [], "runs": 0, "complete": False, "nondet": 0, "skipped": True, "cfg": c} for c in cs)
     return out
 
 
